@@ -643,11 +643,11 @@ func checkProperty(prop, tier string, seed uint64, runs, budget, workers int, re
 			return -1
 		}
 		var begun int64 = -1
-		var lastLine = time.Now()
 		var wmu sync.Mutex
 		killed := int64(-1)
 		stop := make(chan struct{})
-		go func() { // watchdog: a run in progress that produces nothing for hangLimit is a hang
+		mon := newLiveMon(cmd.Process.Pid, hangLimit)
+		go func() { // watchdog: a run in progress that exceeds the liveness bound (see liveMon) is a candidate hang
 			tk := time.NewTicker(500 * time.Millisecond)
 			defer tk.Stop()
 			for {
@@ -656,11 +656,15 @@ func checkProperty(prop, tier string, seed uint64, runs, budget, workers int, re
 					return
 				case <-tk.C:
 					wmu.Lock()
-					if begun >= 0 && time.Since(lastLine) > hangLimit {
-						killed = begun
-						wmu.Unlock()
-						cmd.Process.Kill()
-						return
+					if begun >= 0 {
+						if ex, _ := mon.exceeded(); ex {
+							killed = begun
+							wmu.Unlock()
+							cmd.Process.Kill()
+							return
+						}
+					} else {
+						mon.output() // between runs: nothing to bound
 					}
 					wmu.Unlock()
 				}
@@ -673,7 +677,7 @@ func checkProperty(prop, tier string, seed uint64, runs, budget, workers int, re
 				var l wline
 				if json.Unmarshal(ln, &l) == nil {
 					wmu.Lock()
-					lastLine = time.Now()
+					mon.output()
 					switch l.T {
 					case "begin":
 						begun = int64(l.Run)
@@ -948,15 +952,111 @@ func replayFatal(bi *buildInfo, in *info, file, tmp string, limit time.Duration)
 	if err := cmd.Start(); err != nil {
 		return ""
 	}
+	if waitBounded(cmd, limit) {
+		return ""
+	}
+	return fatalErrorOf(stderr.String())
+}
+
+// ---- liveness bound --------------------------------------------------------------------
+//
+// "Does not terminate" is judged on what the worker process does, not on the wall clock alone (a loaded
+// machine stretches wall time arbitrarily, and a case that is slow but finite - a quadratic accessor on a
+// part repeated 10 000 times - is not a hang):
+//   blocked:  no output for `limit` AND the process consumed no CPU time during the last `limit`
+//             (every goroutine waits for something that never comes);
+//   spinning: the process consumed cpuFactor x `limit` of CPU time since its last output (a loop that
+//             makes no progress; with the default 20 s that is 120 CPU-seconds for one case, about
+//             10 000 times the median case);
+//   hard cap: no output for 30 x `limit` of wall time.
+const cpuFactor = 6
+
+type liveMon struct {
+	pid        int
+	limit      time.Duration
+	lastOut    time.Time
+	cpuAtOut   time.Duration
+	lastCPU    time.Duration
+	lastCPUChg time.Time
+}
+
+func newLiveMon(pid int, limit time.Duration) *liveMon {
+	now := time.Now()
+	c := procCPU(pid)
+	return &liveMon{pid: pid, limit: limit, lastOut: now, cpuAtOut: c, lastCPU: c, lastCPUChg: now}
+}
+
+// output notes that the worker said something (progress).
+func (m *liveMon) output() {
+	m.lastOut = time.Now()
+	m.cpuAtOut = procCPU(m.pid)
+}
+
+// exceeded is polled; it reports whether the bound is exceeded and why.
+func (m *liveMon) exceeded() (bool, string) {
+	now := time.Now()
+	c := procCPU(m.pid)
+	if c < 0 { // no /proc: fall back to the wall clock with a generous factor
+		if now.Sub(m.lastOut) > cpuFactor*m.limit {
+			return true, "wall"
+		}
+		return false, ""
+	}
+	if c-m.lastCPU >= 30*time.Millisecond {
+		m.lastCPU, m.lastCPUChg = c, now
+	}
+	switch {
+	case c-m.cpuAtOut >= cpuFactor*m.limit:
+		return true, "spinning"
+	case now.Sub(m.lastOut) > m.limit && now.Sub(m.lastCPUChg) > m.limit:
+		return true, "blocked"
+	case now.Sub(m.lastOut) > 30*m.limit:
+		return true, "wall"
+	}
+	return false, ""
+}
+
+// procCPU returns user+system CPU time of a process (all threads), or -1.
+func procCPU(pid int) time.Duration {
+	b, err := os.ReadFile(fmt.Sprintf("/proc/%d/stat", pid))
+	if err != nil {
+		return -1
+	}
+	i := bytes.LastIndexByte(b, ')')
+	if i < 0 {
+		return -1
+	}
+	f := strings.Fields(string(b[i+1:]))
+	if len(f) < 13 {
+		return -1
+	}
+	ut, e1 := strconv.ParseInt(f[11], 10, 64)
+	st, e2 := strconv.ParseInt(f[12], 10, 64)
+	if e1 != nil || e2 != nil {
+		return -1
+	}
+	return time.Duration(ut+st) * (time.Second / 100) // USER_HZ is 100 on Linux
+}
+
+// waitBounded waits for cmd (already started) under the liveness bound; it reports whether the bound was
+// exceeded (the process is then killed).
+func waitBounded(cmd *exec.Cmd, limit time.Duration) (exceeded bool) {
 	done := make(chan error, 1)
 	go func() { done <- cmd.Wait() }()
-	select {
-	case <-done:
-		return fatalErrorOf(stderr.String())
-	case <-time.After(limit):
-		cmd.Process.Kill()
-		<-done
-		return ""
+	m := newLiveMon(cmd.Process.Pid, limit)
+	tk := time.NewTicker(250 * time.Millisecond)
+	defer tk.Stop()
+	for {
+		select {
+		case <-done:
+			return false
+		case <-tk.C:
+			if ex, _ := m.exceeded(); ex {
+				cmd.Process.Kill()
+				<-done
+				return true
+			}
+		}
 	}
 }
 
@@ -977,16 +1077,7 @@ func replayHangs(bi *buildInfo, in *info, file, tmp string, limit time.Duration)
 	if err := cmd.Start(); err != nil {
 		return false
 	}
-	done := make(chan error, 1)
-	go func() { done <- cmd.Wait() }()
-	select {
-	case <-done:
-		return false
-	case <-time.After(limit):
-		cmd.Process.Kill()
-		<-done
-		return true
-	}
+	return waitBounded(cmd, limit)
 }
 
 // minimiseAndReplay shrinks the failing case in a worker process, replays the
